@@ -171,6 +171,8 @@ func checkC05(w *World, r *Report) {
 	fi := w.analyseFlush()
 	ruleFlushOutcome(w, r, "C05", fi)
 	ruleSuccessorSwap(w, r, "C05", fi)
+	ruleRenderSize(w, r, "C05")
+	ruleRowsFit(w, r, "C05")
 	ruleHeapIteration(w, r, "C05")
 	checkOneFrame(w, r, "C05")
 	checkHeapSendDiscipline(w, r, "C05.R4")
